@@ -47,6 +47,8 @@ impl ResponseSink {
                     ))
                 })?;
 
+                #[cfg(feature = "verif_hooks")]
+                routee_compass_core::verif::emit(routee_compass_core::verif::Event::SinkLocked);
                 let output_row = format.format_response(response)?;
                 writeln!(file_attained, "{}", output_row).map_err(|e| {
                     CompassAppError::InternalError(format!(
@@ -64,6 +66,12 @@ impl ResponseSink {
                     })?;
                 }
 
+                #[cfg(feature = "verif_hooks")]
+                routee_compass_core::verif::emit(
+                    routee_compass_core::verif::Event::SinkUnlocking {
+                        row_bytes: output_row.len(),
+                    },
+                );
                 Ok(())
             }
             ResponseSink::Combined(policies) => {
